@@ -87,6 +87,11 @@ d=$(mk B4)
 edit "$d/stats/kde.go" 's.replace("ys[i] = 0.25 * (2 + 3*u - u*u*u)", "ys[i] = 0.5 * (2 + 3*u - u*u*u)")'
 expect B4 "$d" C12 tie_failed tie_epan_cdfEach
 
+echo "== B5 breaking: rank walk of HistogramQuantile tests count > goal instead of >= (defect D8 again)"
+d=$(mk B5)
+edit "$d/stats/hist.go" 's.replace("if count >= goal {", "if count > goal {")'
+expect B5 "$d" C14 tie_failed tie_HistogramQuantile
+
 echo "== U1 untranslatable: Weight computed through a map (same results)"
 d=$(mk U1)
 edit "$d/stats/stream.go" 's.replace("\treturn float64(s.Count)\n", "\tw := map[int]float64{0: float64(s.Count)}\n\treturn w[0]\n")'
